@@ -20,7 +20,7 @@ def rand_levels(rng, ie, n, order):
     """n levels, roughly 70 % below the ionisation energy and 30 % at/above it, J integer or half-integer."""
     lv = []
     for k in range(n):
-        if k == 0 and rng.random() < 0.8:
+        if k == 0:   # every physical level table contains the ground level E = 0
             e = 0.0
         elif rng.random() < 0.7:
             e = ie * rng.random() ** 0.5 * 0.999
@@ -135,3 +135,16 @@ def species_from_summary(d):
                               d["dissociation_energy"], d["linear_yn"], d["sigma_s"], d["g0"], d["wi_e"], d["abc_e"],
                               1e-30, 1, 1.0, None, [], [])
     return _sp.Electron()
+
+
+# the two shipped mixtures, listed as in the documentation / tests (each element's species by ascending charge)
+OXY = ["O2", "O2+", "O", "O-", "O+", "O++"]
+OXY_X0 = [1, 0, 0, 0, 0, 0]
+SICO = ["O2", "O2+", "O", "O+", "O++", "CO", "CO+", "C", "C+", "C++", "SiO", "SiO+", "Si", "Si+", "Si++"]
+SICO_X0 = [0, 0, 0, 0, 0, 0.5, 0, 0, 0, 0, 0.5, 0, 0, 0, 0]
+
+
+def sico_x0(f_co):
+    x = [0.0] * 15
+    x[5], x[10] = f_co, 1.0 - f_co
+    return x
